@@ -3,7 +3,7 @@ import glob, json, os, random, subprocess
 import vlib
 from checks import scope_common
 
-LIB = "pub fn a(x) { x }\npub fn c() { 1 }\nfn p() { 2 }\npub type A { A(a: Int) C }\npub const k = 1\npub type T { W }\n"
+LIB = "pub fn a(x) { x }\npub fn c() { 1 }\nfn p() { 2 }\npub type A { A(a: Int) C }\npub const k = 1\npub type T { W }\ntype P { Q }\n"
 EXTRA_SEEDS = [
     # mutual recursion / recursion groups (the functions of one group are inferred together)
     'import m2\npub fn is_even(n) { case n { 0 -> True _ -> is_odd(n - 1) } }\npub fn is_odd(n) { case n { 0 -> False _ -> is_even(n - 1) } }\nfn top() { is_even(m2.c()) }\n',
